@@ -50,7 +50,7 @@ def IPv6address : Re := alts
     seqs [pre 4, lit "::", ls32],
     seqs [pre 5, lit "::", h16],
     seqs [pre 6, lit "::"] ]
-def IPvFuture : Re := seqs [chr 'v', plus HEXDIG, chr '.', plus (alts [unreserved, subDelims, chr ':'])]
+def IPvFuture : Re := seqs [oneOf "vV", plus HEXDIG, chr '.', plus (alts [unreserved, subDelims, chr ':'])]
 def IPliteral : Re := seqs [chr '[', .alt IPv6address IPvFuture, chr ']']
 def iregName : Re := .star (alts [iunreserved, pctEncoded, subDelims])
 def ihost : Re := alts [IPliteral, IPv4address, iregName]
